@@ -2562,6 +2562,26 @@ impl<'a, R: FileManager> FrontendCtx<'a, R> {
         bff_file_name: &BffFileName,
         anchor: &Anchor,
     ) -> Res<Runtype> {
+        // `export * as self from "./this-file"` makes the namespace contain itself
+        if self.recursion_depth > MAX_RECURSION_DEPTH {
+            return self.error(
+                anchor,
+                DiagnosticInfoMessage::AnyhowError(
+                    "value is nested too deeply or refers to itself".to_string(),
+                ),
+            );
+        }
+        self.recursion_depth += 1;
+        let res = self.extract_whole_file_as_value_inner(bff_file_name, anchor);
+        self.recursion_depth -= 1;
+        res
+    }
+
+    fn extract_whole_file_as_value_inner(
+        &mut self,
+        bff_file_name: &BffFileName,
+        anchor: &Anchor,
+    ) -> Res<Runtype> {
         let mut vs = vec![];
         let module = self.get_or_fetch_file(bff_file_name, anchor)?;
         // the export tables are hash maps: visit them in name order, so that the first error reported (and
